@@ -6,7 +6,7 @@ cd /verif
 LOG=${LOG:-/tmp/thor}; mkdir -p $LOG
 for p in ${@:-$(python3 -c "import json;print(' '.join(c['property_id'] for c in json.load(open('/verif/MANIFEST.json'))['checks']))")}; do
   s=$(date +%s)
-  bin/gosymex check -property $p -tier thorough -v > $LOG/$p.log 2>&1; rc=$?
+  bin/gosymex check -property $p -tier thorough > $LOG/$p.log 2>&1; rc=$?
   echo "== $p rc=$rc $(( $(date +%s) - s ))s :: $(tail -1 $LOG/$p.log | cut -c1-260)"
   grep "^VIOLATION\|^INCONCLUSIVE\|^VACUOUS\|^ENCODER\|^KNOWN\|^HARNESS\|^CONFIG" $LOG/$p.log | head -8 | cut -c1-250
 done
